@@ -19,6 +19,7 @@ pub mod c14;
 pub mod c15;
 pub mod c16;
 pub mod c18;
+pub mod c20;
 pub mod tree;
 
 #[derive(Clone, Copy, Debug, Default)]
@@ -73,6 +74,7 @@ pub fn get(id: &str) -> Option<Box<dyn Check>> {
         "C15" => Some(Box::new(c15::C15)),
         "C16" => Some(Box::new(c16::C16)),
         "C18" => Some(Box::new(c18::C18)),
+        "C20" => Some(Box::new(c20::C20)),
         _ => None,
     }
 }
